@@ -180,7 +180,10 @@ func program(c *Case, lets []LetDef, x *E, after []LetDef) *Program {
 	out := &Program{}
 	for _, l := range lets {
 		n := l.Name
-		out.Stmts = append(out.Stmts, &Stmt{LetName: &Ident{Name: n}, LetX: Parenthesize(l.X, nil)})
+		// the value is written with the parentheses the grammar needs plus
+		// redundant ones chosen by the value itself (stable across calls)
+		prng := gen.RNG(c.Seed, "letparens|"+Canon(l.X))
+		out.Stmts = append(out.Stmts, &Stmt{LetName: &Ident{Name: n}, LetX: Parenthesize(l.X, func() bool { return prng.Intn(3) == 0 })})
 	}
 	out.Stmts = append(out.Stmts, q)
 	for _, l := range after {
